@@ -348,6 +348,19 @@ PROPS = {
                   "Numeric::new / Into<Value> are transparent constructors"] + KANI_STUBS[:1],
         "assumptions": TRUST + ["rustc nightly MIR text = the code that is compiled", "mirsym's MIR subset semantics (/verif/mirsym/sym.py)", "z3 5.1 and cvc5 1.0.3 (every query on both)"],
     },
+    "C33": {
+        "engines": ["E2 mirsym+z3/cvc5"],
+        "e2": True,
+        "functions": [("<Formatted<Rgba> as Display>::fmt", "value/colors/rgba.rs", r"impl Display for Formatted<'_, Rgba>")],
+        "bounds": {"quick": "ALL byte triples (r, g, b), both styles, every source format, name present or not (symbolic), for the branch where the colour is opaque with integer channels"},
+        "outside": "the name table (Rgba::name) and whether a name denotes the colour; try_bytes itself (near-integer test); rgba()/hsl()/hsla() text (write_rgba and Formatted<Hsla>: "
+                   "number formatting through core::fmt, see C10); `transparent`; unmodified colour literals, which keep their source text",
+        "stubs": ["Rgba::try_bytes: None or Some(arbitrary bytes)", "Rgba::name: None or Some(name of arbitrary length)", "fmt::Arguments / Argument constructors are decoded structurally "
+                  "(template bytes of the pinned nightly; an unknown template is inconclusive)"],
+        "assumptions": ["representation invariant of Rgba: source format ShortHex implies every channel is a multiple of 17 (set by the parser for #abc literals, reset by reset_source on "
+                        "every modification; not checked here)", "rustc nightly MIR text = the code that is compiled", "mirsym's MIR subset semantics (/verif/mirsym/sym.py)",
+                        "z3 5.1 and cvc5 1.0.3 (every query on both)"],
+    },
     "C36": {
         "engines": ["E2 mirsym+z3/cvc5"],
         "e2": True,
